@@ -1,6 +1,7 @@
 """C07 -- expert driver solves the original system for every trans/storage/equil option (wiring; DESIGN 3/C07)"""
 from props.common import *
 from props.C15 import MALLOC
+from props.common import fullx_query, all_patterns, perms, CONFIGS
 
 REN = ['-DStatAlloc=real_StatAlloc', '-DStatInit=real_StatInit', '-DPrintStat=real_PrintStat', '-DStatFree=real_StatFree',
        '-DDestroy_CompCol_Permuted=real_Destroy_CompCol_Permuted', '-Dsuperlu_abort_and_exit=real_superlu_abort_and_exit']
@@ -16,14 +17,31 @@ def xdrv_query(pid, fact=0, nr=0, memfail=False, timeout=900):
     return q
 
 def plan(tier, seed, pid='C07'):
+    import random
+    rnd = random.Random(seed)
     qs = [xdrv_query(pid, f, nr) for f in (0, 1, 2) for nr in (0, 1)]
     qs += [xdrv_query(pid, f, nr, memfail=True) for f in (0, 1) for nr in (0,)]
+    if pid != 'C07':
+        return qs
+    # numeric half on the REAL driver and REAL factorization / solve: op(A) X = B for every trans x storage
+    k = 0
+    for n in (1, 2):
+        for pat in all_patterns(n):
+            for pv in perms(n):
+                for trans in (0, 1, 2):
+                    for nr in (False, True):
+                        k += 1
+                        qs.append(fullx_query(pid, n, pat, pv, perms(n)[k % len(perms(n))], CONFIGS[k % 8], trans=trans, nr=nr, nprocs=1 + k % 2))
+    combos = [(p, pv) for p in all_patterns(3) for pv in perms(3)]
+    for (pat, pv) in (combos if tier == 'thorough' else rnd.sample(combos, 40)):
+        k += 1
+        qs.append(fullx_query(pid, 3, pat, pv, perms(3)[k % 6], CONFIGS[k % len(CONFIGS)], trans=k % 3, nr=(k % 2 == 0), nprocs=1 + k % 3))
     return qs
 
 META = {
     'level': 'model_checking',
-    'engines': 'E1: cbmc 6.11 bit-precise; the whole option record and every callee outcome symbolic',
-    'bounds': {'options': 'trans {N,T,C} x storage {NC,NR} x fact {DOFACT,EQUILIBRATE,FACTORED} x equed {none,row,col,both} x refact/usepr x nprocs 1..2 x lwork {0,-1}',
+    'engines': 'E1 (wiring: cbmc bit-precise, whole option record and every callee outcome symbolic) + E2 (Real: whole expert driver on symbolic values)',
+    'bounds': {'numeric half': 'real pdgssvx + real factorization + real solve, n<=3, all structurally non-singular patterns (n=3: 40 sampled in quick) x pivot orders x trans {N,T,C} x storage {NC,NR}: op(A) X = B, A and B unchanged (fact = DOFACT)', 'options': 'trans {N,T,C} x storage {NC,NR} x fact {DOFACT,EQUILIBRATE,FACTORED} x equed {none,row,col,both} x refact/usepr x nprocs 1..2 x lwork {0,-1}',
                'callee outcomes': 'factorization: ok / singular at 1 / singular at n / allocation failure; equilibration: each flag or zero row; rcond above / below eps',
                'sizes': 'n = 2, one right-hand side, scale factors 2 and 4 (powers of two: exact)'},
     'outside': ['the numerics of the callees (C01/C02/C11/C12/C13/C19 on the real routines)', 'single precision and complex drivers (same text with renamed calls)', 'n > 2, nrhs > 1'],
